@@ -29,7 +29,7 @@ ASSUMPTIONS = [
     "vf/refenc.py as in C02",
 ]
 ROUTES = ["obj", "yaml", "json", "yaml-h", "json-h"]
-TRANSFORMS = ["none", "none", "sign", "sever", "extract", "cache"]
+TRANSFORMS = ["none", "none", "sign", "sever", "sever-some", "sever-some", "extract", "cache"]
 
 
 def split(data):
@@ -89,6 +89,16 @@ def transform(data, tname, ctx, d, sel):
         e.load(src, "suit")
         e.sever()
         e.dump(out, "suit")
+    elif tname == "sever-some":
+        # some of the severable members that travel with the envelope are taken off (the manifest keeps their digests), the others stay
+        t = cb.loads(data)
+        present = [k for k, _ in t.value if k in (15, 16, 17, 18, 20, 23)]
+        if not present:
+            return None
+        drop = {k for j, k in enumerate(present) if (sel >> j) & 1} or {present[-1]}
+        if len(drop) == len(present) and len(present) > 1:
+            drop.discard(present[0])
+        return cb.enc(cb.Tag(107, cb.Pairs([(k, v) for k, v in t.value if k not in drop])))
     elif tname == "extract":
         names = sorted(k for k, _ in named)
         if not names:
@@ -117,9 +127,38 @@ def transform(data, tname, ctx, d, sel):
         return fh.read()
 
 
+def _decoys_beside(d, data):
+    """The directory of the description is a project directory: files lie there whose names equal text strings of the description (a URI
+    `fw.bin` beside the image `fw.bin`, a vendor name, a description text). They are files; the strings stay strings."""
+    try:
+        shown = sut.parse_mem(data)
+    except boot.HarnessError:
+        raise
+    except Exception:
+        return
+    names, stack = [], [shown]
+    while stack and len(names) < 25:
+        x = stack.pop()
+        if isinstance(x, dict):
+            stack.extend(x.values())
+        elif isinstance(x, list):
+            stack.extend(x)
+        elif isinstance(x, str) and 0 < len(x) <= 60 and "/" not in x and "\x00" not in x and x not in (".", "..") and not all(c in "0123456789abcdefABCDEF" for c in x):
+            names.append(x)
+    for nm in names:
+        try:
+            fp = os.path.join(d, nm)
+            if not os.path.lexists(fp):
+                with open(fp, "wb") as fh:
+                    fh.write(b"a project file whose name happens to equal a text of the description")
+        except (OSError, ValueError):
+            pass
+
+
 def roundtrip(data, route, d):
     if route == "obj":
         return sut.create_mem(sut.parse_mem(data))
+    _decoys_beside(d, data)
     if route.startswith("cli:"):
         r = route[4:]
         path = sut.parse_cli(data, r.split("-")[0], r.endswith("-h"), d, name="rtc")
@@ -309,7 +348,7 @@ def run_shard(ctx, spec):
     acc = Acc()
     if spec["kind"] == "specials":
         for i, d in enumerate(specials()):
-            for tname in ("none", "sever", "cache"):
+            for tname in ("none", "sever", "sever-some", "cache"):
                 case = {"desc": d, "transform": tname, "sel": i}
                 try:
                     judge(case, acc, ctx)
@@ -348,7 +387,7 @@ def replay(ctx, check, case):
 def finalize(ctx, m, ev):
     c = m["counters"]
     ev["coverage"]["excluded_known"] = {k.split(":")[1]: v for k, v in c.items() if k.startswith("excluded_known:")}
-    for need in ["transform:sign", "transform:sever", "transform:extract", "transform:cache", "route:yaml-h", "route:json-h", "route:cli:yaml-h", "depth:2", "f4free"]:
+    for need in ["transform:sign", "transform:sever", "transform:sever-some", "transform:extract", "transform:cache", "route:yaml-h", "route:json-h", "route:cli:yaml-h", "depth:2", "f4free"]:
         if not c.get(need):
             raise boot.HarnessError(f"interesting class {need} is empty")
     bad = sum(v for k, v in c.items() if k.startswith("transform_failed") or k.startswith("unbuildable"))
